@@ -761,7 +761,7 @@ func Run(r *report.Run) {
 	if r.Tier == "thorough" {
 		depth, tamperDepth, full = 4, 2, true
 	}
-	r.Rule = fmt.Sprintf("(1) BFS to depth %d over the writer alphabet {Planner.WritePlan x 6 formatters x 2 plans x {new version, overwrite version 1}, WriteCheckpoint x 2 plans, MemDir.CopyFiles into an empty MemDir / into one that holds the first file / newest file first} from the empty MemDir (and LocalDir to depth 2); canonical state = sorted (name, bytes) with 14-digit timestamps masked; invariant Validate(dir)==nil in every state. (2) for every reached state of depth<=%d with <=3 migration files plus 12 hand-built states (sum-ignored files first/middle/last, awkward names (a blank inside / in front, a second '.sql', the text 'h1:'), equal contents, empty file, a file starting with a byte order mark, a checkpoint file between two plain files, non-migration file): the complete single-edit neighbourhood - every byte position of every file and of atlas.sum x {substitute (%s), delete, insert 4 values}, a byte order mark prepended / removed, file add before/between/after x contents (new, sum-ignored, empty, copy of each file), remove, rename (order preserving / changing / out of *.sql), toggle the ignore directive, swap contents, move a tail across a file boundary, sum line remove/dup/swap (also with the first line computed anew, so that the sum file is consistent in itself), bytes moved between a name and its hash in a sum line, sum removed/emptied - judged by refSum, through a MemDir and through a LocalDir on disk (same verdict; the files handed out are the bytes on disk); for directories holding a checkpoint a material edit must also make Executor.ExecuteTo(v) fail with a checksum error for every version v that precedes the checkpoint, and an executor on which ExecuteTo(v) was already called (twice) before the edit must report it from Pending and ExecuteN. (3) BFS over CLI histories on a real directory with the alphabet {migrate new, migrate diff to 2 desired schemas (SQLite dev db), migrate hash, hand edits: append to newest file, remove oldest file, add a file, drop the last sum line, rename newest file}: a writer command must refuse a directory whose sum does not match and leave it untouched, must leave a valid directory otherwise; in every reached state `migrate validate` and `migrate apply` (fresh database) must succeed iff the directory was not edited since atlas last wrote or re-hashed it, and the CLI must agree with migrate.Validate(LocalDir); an edited directory handed over as a state source (`schema inspect --url file://dir`, absolute and relative URL) must be refused too; (4) `migrate import` from hand-written source directories of the 5 third-party formats x version sets (digit boundaries 9/10/11, 1/2/10, zero-padded; flyway also with a repeatable, a baseline and an undo file, and with a file in a sub-directory of a directory that lives below a hidden directory): the written directory must validate and hold the statement of every step exactly once; (5) `migrate hash` then `migrate validate` on hand-written directories of 5 formats with the directory and its format handed over through each of 4 channels (URL parameter, --dir-format, project file, project file plus --dir-format), every pair of channels, untouched and with a migration file edited in between: the sum one command writes is the one every other expects; non-trivial = tampered directory the model calls material; distinct = (state, edit)", depth, tamperDepth, map[bool]string{false: "bit flip, newline, space", true: "all 255 other values"}[full])
+	r.Rule = fmt.Sprintf("(1) BFS to depth %d over the writer alphabet {Planner.WritePlan x 6 formatters x 2 plans x {new version, overwrite version 1}, WriteCheckpoint x 2 plans, MemDir.CopyFiles into an empty MemDir / into one that holds the first file / newest file first} from the empty MemDir (and LocalDir to depth 2); canonical state = sorted (name, bytes) with 14-digit timestamps masked; invariant Validate(dir)==nil in every state. (2) for every reached state of depth<=%d with <=3 migration files plus 12 hand-built states (sum-ignored files first/middle/last, awkward names (a blank inside / in front, a second '.sql', the text 'h1:'), equal contents, empty file, a file starting with a byte order mark, a checkpoint file between two plain files, non-migration file): the complete single-edit neighbourhood - every byte position of every file and of atlas.sum x {substitute (%s), delete, insert 4 values}, a byte order mark prepended / removed, file add before/between/after x contents (new, sum-ignored, empty, copy of each file), remove, rename (order preserving / changing / out of *.sql), toggle the ignore directive, swap contents, move a tail across a file boundary, sum line remove/dup/swap (also with the first line computed anew, so that the sum file is consistent in itself), bytes moved between a name and its hash in a sum line, sum removed/emptied - judged by refSum, through a MemDir and through a LocalDir on disk (same verdict; the files handed out are the bytes on disk); for directories holding a checkpoint a material edit must also make Executor.ExecuteTo(v) fail with a checksum error for every version v that precedes the checkpoint, and an executor on which ExecuteTo(v) was already called (twice) before the edit must report it from Pending and ExecuteN. (3) BFS over CLI histories on a real directory with the alphabet {migrate new, migrate diff to 2 desired schemas (SQLite dev db), migrate hash, hand edits: append to newest file, remove oldest file, add a file, drop the last sum line, rename newest file, change one character of a file's hash in its sum line}: a writer command must refuse a directory whose sum does not match and leave it untouched, must leave a valid directory otherwise; in every reached state `migrate validate` and `migrate apply` (fresh database) must succeed iff the directory was not edited since atlas last wrote or re-hashed it, and the CLI must agree with migrate.Validate(LocalDir); an edited directory handed over as a state source (`schema inspect --url file://dir`, absolute and relative URL) must be refused too, and so must `migrate lint --latest 1`, whose integrity step is separate from the validation the other commands share; (4) `migrate import` from hand-written source directories of the 5 third-party formats x version sets (digit boundaries 9/10/11, 1/2/10, zero-padded; flyway also with a repeatable, a baseline and an undo file, and with a file in a sub-directory of a directory that lives below a hidden directory): the written directory must validate and hold the statement of every step exactly once; (5) `migrate hash` then `migrate validate` on hand-written directories of 5 formats with the directory and its format handed over through each of 4 channels (URL parameter, --dir-format, project file, project file plus --dir-format), every pair of channels, untouched and with a migration file edited in between: the sum one command writes is the one every other expects; non-trivial = tampered directory the model calls material; distinct = (state, edit)", depth, tamperDepth, map[bool]string{false: "bit flip, newline, space", true: "all 255 other values"}[full])
 	r.Assumptions = []string{
 		"material = the ordered list of *.sql files (name, bytes; bytes replaced by a marker for files whose first line carries atlas:sum ignore) changed, or atlas.sum changed other than in ASCII white space (space, tab, CR, VT, FF) or its final newline; immaterial edits of sum-ignored bodies and whitespace-only sum edits are counted, not judged",
 		"any of ErrChecksumMismatch / ErrChecksumFormat / ErrChecksumNotFound counts as a checksum error",
